@@ -1,6 +1,7 @@
 import SpgProofs.Properties.C17
 #print axioms Spg.C17.cli_tables_ok
 #print axioms Spg.C17.cli_output_sites
+#print axioms Spg.C17.cli_one_password_site
 #print axioms Spg.C17.cli_calls
 #print axioms Spg.C17.cli_no_args
 #print axioms Spg.C17.cli_unknown_subcommand
